@@ -5003,18 +5003,19 @@ class PrecededBy(ParseElementEnhance):
         # retreat specified a maximum lookbehind window, iterate
         test_expr = self.expr + StringEnd()
         instring_slice = instring[max(0, loc - self.retreat) : loc]
-        last_expr: ParseBaseException = ParseException(instring, loc, self.errmsg, self)
 
-        for offset in range(1, min(loc, self.retreat + 1) + 1):
+        # try every start position inside the lookbehind window, nearest first
+        for offset in range(1, len(instring_slice) + 1):
             try:
                 # print('trying', offset, instring_slice, repr(instring_slice[loc - offset:]))
                 _, ret = test_expr._parse(instring_slice, len(instring_slice) - offset)
-            except ParseBaseException as pbe:
-                last_expr = pbe
+            except ParseBaseException:
+                pass
             else:
                 break
         else:
-            raise last_expr
+            # report the failure in terms of the string being parsed, not of the window
+            raise ParseException(instring, loc, self.errmsg, self)
 
         return loc, ret
 
